@@ -160,6 +160,19 @@ CLAIMED['C05'] = ('DensityGate, MC_DensityGate, Gen_C05, Trace_C05',
     'oracle); edge codes from comparisons with the returned edges; n or n+1 accepted when f*n is integral.',
     'DESIGN.md 3.3, 4 C05')
 
+CLAIMED['C02'] = ('Calibration, Trace_C02',
+    'TLA+ step machine of get_transform_fxn bookkeeping (cluster, order, select, fit, assemble) checked by TLC for pairing '
+    'independence; recorded end-to-end calibrations of synthetic beads validated by a trace spec against the scenario '
+    '(partition, brightness order, selection, value assignment, lengths, reproducibility, order independence); numeric '
+    'accuracy rides along as logged observations',
+    'TLC checks OwnValue / EqualLengths / ExcludedStayOut / CurvePerChannel / RefusedOnlyWhenTooFew over all flag assignments '
+    '(K=4, 2 channels); the trace direction runs the real workflow on generated bead files (6..8 populations, 1..3 channels, '
+    'unknown values, saturated extremes, blank, clustering-channel choices, median/mean, permuted order, repeated seed).',
+    'Trusted: TLC, value parser; scenario generator keeps non-saturated populations 4 SD inside the selection thresholds '
+    '(discards others); numeric observations are measured by the harness (true medians, reference fit, 10% bound). Known '
+    'finding: grouping failures when the equal-chunk seeding straddles populations (unequal sizes).',
+    'DESIGN.md 3.3, 4 C02')
+
 NOT_APPLICABLE = {
     'C09': 'continuum numerics only (L-BFGS-B recovery of real parameters, real-analytic identities of closures): no '
            'state, history or case analysis for a TLA+ specification to enumerate; discrete fragment (Fit refuses <3 '
